@@ -18,7 +18,7 @@ MCNext ==
   \/ \E src \in {0, 1} : nrx < 3 /\ RxDisconnect(src) /\ nrx' = nrx + 1 /\ UNCHANGED <<ntx, lastAck, lastOk>>
   \/ \E id \in {1, 2}, k \in Kinds : Cardinality(DOMAIN calls) < 1 /\ Call(id, k, 0) /\ UNCHANGED <<ntx, nrx, lastAck, lastOk>>
   \/ \E id \in {1, 2}, k \in Kinds, s \in 0..M - 1 : RetOk(id, k, s, 0) /\ lastOk' = <<s, k, Head(cand)>> /\ UNCHANGED <<ntx, nrx, lastAck>>
-  \/ \E id \in {1, 2} : RetErr(id, 0) /\ UNCHANGED <<ntx, nrx, lastAck, lastOk>>
+  \/ \E id \in {1, 2}, w \in {"unexpected", "other"} : RetErr(id, w, 0) /\ UNCHANGED <<ntx, nrx, lastAck, lastOk>>
 MCSpec == MCInit /\ [][MCNext]_mcvars
 AckRule == (lastAck # <<>> => lastAck[1] = 1) /\ \A a \in acks : a[1] = 1       \* never to another device
 DataSeq == [][seqSend' # seqSend => (seqSend' = (seqSend + 1) % M \/ (seqSend' = 0 /\ open'))]_mcvars
